@@ -1,11 +1,12 @@
 from .common import Stream, run_model, REFDRV
 from . import streams_tables
 from . import streams_geom
+from . import streams_quality
 import subprocess
 
 ID = 'C15'
-PROPS_MODULE = 'Refine.Props.C15'
-STREAMS = [streams_tables.CELL, streams_geom.KERNELS, streams_geom.BARY, streams_geom.RATIO_QUAD]
+PROPS_MODULE = ['Refine.Props.C15', 'Refine.Props.C15Quality']
+STREAMS = [streams_tables.CELL, streams_geom.KERNELS, streams_geom.BARY, streams_geom.RATIO_QUAD, streams_quality.QUALITY]
 EXPLANATION = (
     'Proved (Lean 4, exact real arithmetic, over the executable model that is bit-compared with the C on every run): '
     'the generated e2n/f2n tables of all 3-D cell types describe a closed, coherently oriented boundary (each directed '
@@ -21,12 +22,30 @@ EXPLANATION = (
     'ratio/ratio_node0/dratio_dnode0 (geometric), interpolate_edge, bary4/3/3d, clip_bary2/3/4 compared bit for bit on '
     'random and adversarial simplices; the quadrature edge length is validated around an uninterpreted ref_matrix_exp_m. '
     'Oracle: exact rational identities (fractions of the hex doubles) with conditioning-scaled tolerances, '
-    'finite differences for the derivatives.')
+    'finite differences for the derivatives. '
+    'Quality (Props/C15Quality, stream quality): ref_node_{tet,tri}_{epic,jac}_quality, the four ..._dquality_dnode0 and '
+    'the two dispatching pairs are modelled one by one (Model/Quality.lean) and bit-compared with the C (static ones by '
+    'white-box inclusion of ref_node.c) on random/adversarial cells with four different SPD vertex metrics, every even '
+    'vertex permutation, both selectors. Proved: the quality returned by every dquality routine equals the plain quality '
+    '(status included, all selector values); for the jac tet and the jac triangle: sum e^T M e, n.n and sum |e|^2 are exact '
+    'quadratics in node 0 with the coded d_l2 / 2 n.dn / dl2 as linear terms, the volume is affine, and the gradient '
+    'returned by the C IS the derivative of the model function of the plain quality (Mathlib HasDerivAt of '
+    't -> quality(x0 + t delta) at 0, for every direction, on the smooth branch; the branch conditions are open); for '
+    'the epic tet the power/sum-of-squares/quotient combination is the formal derivative given the edge-length '
+    'gradients (_partial); epic and jac tet quality and epic and jac triangle quality are invariant '
+    'under the 3-cycles (0 1 2) and (1 2 3), hence under all even permutations. Oracle: dquality value == plain value, '
+    'derivative vs central difference of the plain quality, even-permutation invariance, an independent pure-Python '
+    'reference value (quality one on the metric-regular simplex, q <= 1 for jac, sign vs min_volume).')
 ASSUMPTIONS = [
     'IEEE rounding in every REF_DBL kernel is modelled (Float instance, bit-compared), not verified: theorems hold in '
     'exact real arithmetic',
     'quality in (0,1], quality = 1 on the metric-regular simplex and affine invariance (jac/epic quality: exp_m, log_m, '
-    'pow 2/3) are NOT proved and not tied by this package',
+    'pow 2/3) are NOT proved (oracle only: independent reference value on every generated case); they are tied (stream quality)',
+    'derivative exactness is proved for the jac tet and jac triangle paths; for the epic tet only the combination is proved '
+    '(given the edge-length gradients), for the epic triangle nothing: there the derivative is tied bit for bit and checked '
+    'against finite differences (the edge-length derivative ref_node_dratio_dnode0 is a log-mean with branches, not proved)',
+    'ref_node->ratio_method is REF_NODE_RATIO_GEOMETRIC in the quality model and stream (the quadrature variant is not composed '
+    'into the quality functions)',
     'ratio_scale is proved for s >= 1 with end-point lengths >= 1e-12: below that cut-off the C returns '
     'MIN(ratio0, ratio1) instead of the logarithmic mean, so exact linear scaling is false there',
     'ref_matrix_exp_m is an uninterpreted input of the quadrature edge length (stream geom_ratio_quad): its output is '
